@@ -2,4 +2,6 @@ SPECIFICATION Spec
 INVARIANT InstrumentationSucceeds
 INVARIANT ReportedLinesExact
 INVARIANT NoForeignLines
+INVARIANT SuiteAnalysisKeepsLines
+INVARIANT MergedLinesAreUnion
 CHECK_DEADLOCK FALSE
